@@ -22,6 +22,9 @@ def main(tier, seed):
                                     env.QUICK_X86 if quick else env.X86_ARCHS,
                                     env.QUICK_ARM if quick else env.ARM_ARCHS, flag_deps=(False, True))
     deps_run.finish_family(run, "C04", cases)
+    # whole-run traces of `inspect` (Osaca.tla): the summary numbers are the numbers the graph stage computed
+    from harness import osaca_run
+    osaca_run.whole_runs(run, "C04", tier, seed)
     for c in cases:
         if "error" not in c and len(c["E"]) >= 2 and len(c["cpMarked"]) >= 2:
             run.mark(c.get("text", "") + "|" + c["id"].split(":")[2])
